@@ -52,7 +52,14 @@ class Source:
             raise ExtractError('item not found in %s: %s' % (self.rel, header_re))
         s = m.start()
         j = self.src.find('{', m.end() - 1)
-        semi = self.src.find(';', m.end() - 1)
+        # first ';' that is not nested in ( ) or [ ]  (array types such as `[usize; 2]` in a signature are not the end of an item)
+        semi = -1; depth = 0; k = m.end() - 1
+        while k < len(self.src) and (j < 0 or k < j):
+            ch = self.src[k]
+            if ch in '([': depth += 1
+            elif ch in ')]': depth -= 1
+            elif ch == ';' and depth <= 0: semi = k; break
+            k += 1
         if j < 0 or (0 <= semi < j and not re.search(r'\bwhere\b', self.src[m.end():j])):
             # item without a body (const, type alias, tuple struct)
             e = semi
